@@ -104,7 +104,6 @@ timeout: 150
 #endif
 #define OLEN(o)  __CPROVER_old((o)->len)
 
-long w_len, w_size, w_olen, w_osize;
 
 #if defined(U_APPEND) || defined(U_PREPEND)
 # ifdef U_APPEND
